@@ -142,6 +142,11 @@ def execute(plan, sim):
     if n_groups > 1:
         sim.count("multi_group_declarations")
     want_ev = want * n_groups
+    # each input of a grouped write carries the bindings: a writer may declare them with every group (as pyjelly
+    # does) or fewer times - the property asks that every binding is delivered, same prefix, same IRI, same order
+    repeats = [want * k for k in range(1, n_groups + 1)]
+    if ev in repeats:
+        want_ev = ev
     if ev != want_ev:
         v.append({"clause": "C14.declarations_differ", "sig": {"integration": integration, "reader": "flat"},
                   "msg": f"bound on the source {want!r} (x{n_groups} groups); flat parse delivered {ev!r}"})
